@@ -3,7 +3,8 @@
 Model coq/Rpc/Models.v  <->  mopidy.models (pydantic), through
  (a) serialize()/model_dump_json <-> to_json, model_validate <-> of_json (also on mutated JSON),
  (b) a real jsonrpc.Wrapper call echoing its argument (what the method receives, what comes back),
- (c) the real http.actor.on_event with a capturing broadcast,
+ (c) the real http.actor.on_event -> WebSocketHandler.broadcast -> _send_broadcast -> what each
+     connected WebSocket client is sent,
  (d) the real storage.dump / storage.load of a state file.
 Monitors: immutability, == / hash by value, constraint rejection, tag at every level on every
 wire, decode(to_json m) == m, untagged objects stay plain dicts (runtime facts about pydantic
@@ -12,6 +13,7 @@ objects are exercised here only: labelled partial).
 
 import gzip
 import json
+from types import SimpleNamespace
 import pathlib
 import shutil
 import tempfile
@@ -707,9 +709,63 @@ def event_stage(chk, M, specs):
     """(c) the real http.actor.on_event with a capturing broadcast."""
     from mopidy.http import actor, handlers
 
-    captured = []
-    original = handlers.WebSocketHandler.__dict__["broadcast"]
-    handlers.WebSocketHandler.broadcast = classmethod(lambda _cls, msg, _loop: captured.append(msg))
+    # The real broadcast path: WebSocketHandler.broadcast schedules _send_broadcast(client, msg) on
+    # the io loop for every connected client, which calls client.write_message(msg).  The loop is a
+    # stand-in that runs the callback at once, the two clients record what a WebSocket client would
+    # be sent (text, or bytes that must be UTF-8 text).  ``captured`` = what the first client got.
+    import logging
+
+    logging.getLogger("mopidy.http.handlers").setLevel(logging.CRITICAL)
+
+    class Loop:
+        def add_callback(self, callback, *args, **kwargs):
+            callback(*args, **kwargs)
+
+    class Client:
+        def __init__(self):
+            self.received = []
+            self.request = SimpleNamespace(remote_ip="test")
+
+        def write_message(self, message, binary=False):
+            self.received.append((message, binary))
+
+    loop = Loop()
+    clients = [Client(), Client()]
+    saved_clients = set(handlers.WebSocketHandler.clients)
+    handlers.WebSocketHandler.clients.clear()
+    handlers.WebSocketHandler.clients.update(clients)
+
+    class Captured(list):
+        """Texts delivered to the first client since the last clear(); delivery is checked."""
+
+        def clear(self):
+            for c in clients:
+                c.received.clear()
+            super().clear()
+
+        def collect(self, case):
+            texts = []
+            for c in clients:
+                if len(c.received) != 1:
+                    chk.monitor_failure("same_form", {"wire": "event", "what": "not_delivered"},
+                                        f"the event reached a connected WebSocket client {len(c.received)} times instead of once", case)
+                    return False
+                message, binary = c.received[0]
+                try:
+                    texts.append(message.decode("utf-8") if isinstance(message, bytes) else message)
+                except UnicodeDecodeError:
+                    chk.monitor_failure("same_form", {"wire": "event", "what": "not_text"}, "event message is not UTF-8 text", case)
+                    return False
+                if binary or not isinstance(texts[-1], str):
+                    chk.monitor_failure("same_form", {"wire": "event", "what": "not_text"}, "event sent as a binary frame", case)
+                    return False
+            if texts[0] != texts[1]:
+                chk.monitor_failure("same_form", {"wire": "event", "what": "clients_differ"}, "clients received different messages", case)
+                return False
+            self[:] = [texts[0]]
+            return True
+
+    captured = Captured()
     rows = []
     try:
         for spec in specs:
@@ -718,14 +774,17 @@ def event_stage(chk, M, specs):
             m = build(M, spec)
             captured.clear()
             if spec["cls"] == "TlTrack":
-                actor.on_event("track_playback_started", None, tl_track=m)
+                actor.on_event("track_playback_started", loop, tl_track=m)
                 key = "tl_track"
             else:
-                actor.on_event("playlist_changed", None, playlist=m)
+                actor.on_event("playlist_changed", loop, playlist=m)
                 key = "playlist"
             case = {"cls": spec["cls"], "spec": spec_json(spec)}
             chk.count(1, nontrivial_key="event:" + sort_key(case["spec"]))
             chk.dist("event:" + key)
+            chk.dist("event:non_ascii" if not json.dumps(case["spec"], ensure_ascii=False).isascii() else "event:ascii")
+            if not captured.collect(case):
+                continue
             try:
                 msg = json.loads(captured[0])
                 payload = msg[key]
@@ -743,15 +802,16 @@ def event_stage(chk, M, specs):
                 except Exception:  # noqa: BLE001
                     chk.monitor_failure("same_form", {"wire": "event", "what": "decode"}, "event payload does not decode to the model", case)
             rows.append((case, f"({g_model(spec)}, {g_json(canon(payload))})"))
-        msg_rows = all_events(chk, M, actor, captured, specs)
+        msg_rows = all_events(chk, M, actor, captured, specs, loop)
     finally:
-        handlers.WebSocketHandler.broadcast = original
+        handlers.WebSocketHandler.clients.clear()
+        handlers.WebSocketHandler.clients.update(saved_clients)
     eval_cases(chk, "events", "model * json", rows, ["event_case_ok"], ["event_json true m ~ broadcast payload"])
     eval_cases(chk, "event_messages", "event * json", msg_rows, ["event_msg_ok", "event_decode_ok"],
                ["encode_event true ev ~ broadcast message", "decode_event (broadcast message) = ev"])
 
 
-def all_events(chk, M, actor, captured, specs):
+def all_events(chk, M, actor, captured, specs, loop):
     """All fourteen CoreListener events through the real on_event; -> rows (event term, message)."""
     from mopidy.types import PlaybackState
 
@@ -797,7 +857,9 @@ def all_events(chk, M, actor, captured, specs):
         chk.count(1, nontrivial_key="eventmsg:" + name + sort_key(case["kwargs"]))
         chk.dist("eventmsg:" + name)
         try:
-            actor.on_event(name, None, **dict(kwargs))
+            actor.on_event(name, loop, **dict(kwargs))
+            if not captured.collect(case):
+                continue
             msg = json.loads(captured[0])
         except Exception as exc:  # noqa: BLE001
             chk.monitor_failure("same_form", {"wire": "event", "what": "raised", "event": name},
